@@ -322,6 +322,47 @@ func (c *Ctx) resolveRenames() {
 			}
 		}
 	}
+	c.resolveMergedWrappers(rec, cur, missing)
+}
+
+// resolveMergedWrappers: a recorded function m that is gone and was not renamed may have been merged into the
+// pass-through wrapper that used to call it (addPaths -> baseAddPaths inlined into addPaths). When exactly one
+// recorded function W with m's signature, still declared, used to call m and now has m's callees and fields, the
+// name m resolves to W as well (W keeps going by its own name).
+func (c *Ctx) resolveMergedWrappers(rec map[string]anchorFP, cur map[string]*ssa.Function, missing []string) {
+	for _, m := range missing {
+		if c.byAlias[m] != nil {
+			continue
+		}
+		want := rec[m]
+		var cands []string
+		for w, fp := range rec {
+			if strings.HasPrefix(w, "type ") || cur[w] == nil || fp.Sig != want.Sig || len(fp.Callees) > 2 {
+				continue
+			}
+			calls := false
+			for _, cal := range fp.Callees {
+				if cal == m {
+					calls = true
+				}
+			}
+			if !calls {
+				continue
+			}
+			now := c.fingerprint(cur[w])
+			if 0.5*jaccard(want.Callees, now.Callees)+0.5*jaccard(want.Fields, now.Fields) >= 0.3 { // candidates are already narrowed by signature and the recorded delegation
+				cands = append(cands, w)
+			}
+		}
+		if len(cands) == 1 {
+			w := cands[0]
+			c.byAlias[m] = cur[w]
+			if d, ok := c.decls[w]; ok {
+				c.decls[m] = d
+			}
+			c.note("function %s is not declared any more; its body now sits in %s, which used to delegate to it — anchors naming %s are read in %s", m, w, m, w)
+		}
+	}
 }
 
 // freshHelper: an unexported, loop-free function of the package that the reference record does not know and that
